@@ -30,7 +30,14 @@ PROP = dict(
                            "outcome:destroy-refused": 5000, "outcome:clone-refused-clean": 3000,
                            "monitor:structure-walks": 1000000, "monitor:membership-compares": 1000000,
                            "monitor:release-witnessed": 200000, "monitor:clone-node-compares": 100000,
-                           "monitor:final-release-audits": 100000, "history:reached-depth2": 50000}),
+                           "monitor:final-release-audits": 100000, "history:reached-depth2": 50000,
+                           "mpt_gnode_relink:concat": 50000, "state:concat-relink-from-parent": 30000,
+                           "state:concat-relink-from-grandparent": 10000, "state:concat-relink-from-higher": 3000,
+                           "state:concat-relink-from-root": 30000, "state:concat-members-with-children": 10000,
+                           "mpt_node_parse": 50000, "mpt_parse_node:failing": 10000, "outcome:node-parse-replaced": 20000,
+                           "state:node-parse-on-node-with-children": 15000, "outcome:parse-text-error": 25000,
+                           "outcome:parse-bad-limits": 8000, "outcome:parse-bad-format": 10000, "outcome:parse-no-file": 5000,
+                           "state:failed-parse-on-node-with-children": 40000}),
               dict(name="c14_cxx", src=["c14_cxx.cpp"], libs=["mpt++", "mptio", "mptplot", "mptcore"], batch=512, lsan=True,
                    floors={"node::~node": 200000, "node::~node:scope-exit": 50000, "node::node": 100000, "node::node:automatic": 50000,
                            "node::create(name)": 50000, "node::create(size)": 50000, "mpt_node_new": 50000,
@@ -49,9 +56,13 @@ PROP = dict(
               "node_clear, node_clone/list_clone/tree_clone (1 in 6 with a value that refuses to be cloned), node_move between disjoint lists "
               "(top-level handle or &parent->children), gnode_swap, gnode_switch, gnode_relink (consistent tree / after manual concatenation), "
               "node_locate/next/find, gnode_pos, gnode_traverse (4 orders x leaf masks, optional stop), parse_node into a node with or without "
-              "children; every node is destroyed at the end and every value must then have exactly one release.  non-trivial = the forest reached "
+              "children, mpt_node_parse (file front end) with good input (replaces the children), text errors (unclosed section, stray section end, "
+              "assignment without name), refused limits / format / file and failing mpt_parse_node calls (tree must be untouched), manual "
+              "concatenation of a detached list behind the last child of a node at any depth + gnode_relink from the node, its parent, "
+              "grandparent or root; every node is destroyed at the end and every value must then have exactly one release.  non-trivial = the forest reached "
               "depth >= 2, >= 8 structure-changing operations were executed and at least one of {clone of depth >= 2, move that merges or "
-              "re-parents children, parse_node merge into existing children} happened; distinct = 64-bit hash of the operation list with arguments.  "
+              "re-parents children, parse_node merge into existing children, mpt_node_parse (any outcome) on a node with children, concatenation "
+              "relinked from an ancestor above the parent} happened; distinct = 64-bit hash of the operation list with arguments.  "
               "C++ leg (c14_cxx): one history of 12..50 (80) operations over <= 20 mpt::node objects on the heap (node::create, mpt_node_new), in "
               "harness storage (placement new, explicit destructor = member/automatic life time) and in real automatic storage (scope exit), "
               "linked with the six C insert functions below a parent and in parent-less lists, destructor run at head/middle/tail/isolated, "
